@@ -293,4 +293,61 @@ theorem pass1_accepts_block (b : Blk) (hb : b.WF) (hgap : ∀ s ∈ b.gap, isExt
       simp only [List.foldlM_cons, List.foldlM_nil, hs']
       rfl
 
+/-- the bindings of a whole program -/
+def progBindings (blks : List Blk) (tail : List Stmt) : List Binding := blks.flatMap blkBindings ++ gapBindings tail
+
+theorem pass1_accepts_blocks : ∀ (blks : List Blk) (tail : List Stmt) (st : P1) (m' : List (Key × SymData)), st.cursor = none →
+    (∀ b ∈ blks, b.WF ∧ (∀ s ∈ b.gap, isExternal s.nucleus = true ∧ s.labels = []) ∧ b.origS.labels = [] ∧ BodyFits b.a.toNat b.body) →
+    (∀ s ∈ tail, isExternal s.nucleus = true ∧ s.labels = []) →
+    labelFold st.labels (progBindings blks tail) = .ok m' →
+    ∃ st', (blks.flatMap Blk.stmts ++ tail).foldlM pass1Step st = .ok st' ∧ st'.labels = m' ∧ st'.cursor = none := by
+  intro blks
+  induction blks with
+  | nil =>
+    intro tail st m' hc _ ht hl
+    simp only [progBindings, List.flatMap_nil, List.nil_append] at hl ⊢
+    exact pass1_accepts_gap tail st m' hc ht hl
+  | cons b rest ih =>
+    intro tail st m' hc hwf ht hl
+    simp only [progBindings, List.flatMap_cons, List.append_assoc] at hl ⊢
+    rw [labelFold_append] at hl
+    cases h1 : labelFold st.labels (blkBindings b) with
+    | error e => rw [h1] at hl; cases hl
+    | ok m1 =>
+      rw [h1] at hl
+      simp only at hl
+      obtain ⟨hb, hgap, horig, hfit⟩ := hwf b (by simp)
+      obtain ⟨s1, hf1, hm1, hc1⟩ := pass1_accepts_block b hb hgap horig hfit st m1 hc h1
+      obtain ⟨st', hf', hm', hc'⟩ := ih tail s1 m' hc1 (fun x hx => hwf x (by simp [hx])) ht (by rw [hm1]; exact hl)
+      exact ⟨st', by rw [foldlM_append_of_ok' _ _ _ _ _ hf1]; exact hf', hm', hc'⟩
+
+/-- **the first pass accepts** a structured program — closed blocks, only unlabelled `.external` declarations outside them, no
+    label on an `.orig` — whose blocks stay at or below xFE00 and whose label bindings (each label at the location counter of
+    its statement, each `.external` at 0), made in program order, never bind a name to two different addresses -/
+theorem pass1_accepts (blks : List Blk) (tail : List Stmt) (src : Option (List Char))
+    (hwf : ∀ b ∈ blks, b.WF ∧ (∀ s ∈ b.gap, isExternal s.nucleus = true ∧ s.labels = []) ∧ b.origS.labels = [] ∧ BodyFits b.a.toNat b.body)
+    (ht : ∀ s ∈ tail, isExternal s.nucleus = true ∧ s.labels = [])
+    (hl : ∃ m, labelFold [] (progBindings blks tail) = .ok m) :
+    ∃ t, pass1 (blks.flatMap Blk.stmts ++ tail) src = .ok t := by
+  obtain ⟨m, hm⟩ := hl
+  obtain ⟨st', hf, _, hc⟩ := pass1_accepts_blocks blks tail (p1Init src) m rfl hwf ht hm
+  unfold pass1
+  rw [hf]
+  dsimp only
+  unfold p1Finish
+  rw [hc]
+  exact ⟨_, rfl⟩
+
+/-- the label fold fails exactly when some binding meets an earlier binding of the same name with a different address -/
+theorem bindStep_ok_iff (m : List (Key × SymData)) (x : Binding) :
+    (∃ m', bindStep m x = .ok m') ↔ ∀ d, lookupKey m (upperS x.1.name) = some d → d.addr = x.2.1 := by
+  unfold bindStep addLabel
+  dsimp only
+  cases hl : lookupKey m (upperS x.1.name) with
+  | none => simp
+  | some d =>
+    by_cases hd : d.addr = x.2.1
+    · simp [hd]
+    · simp [hd]
+
 end Lc3V
